@@ -32,7 +32,10 @@ var KeyVarNames = []string{"", "k", "i"}
 
 // Layout controls the concrete rendering of an AST.
 type Layout struct {
-	Mode int        // 0 canonical, 1 wide spaces, 2 newlines inside brackets, 3 inline comments
+	// 0 canonical, 1 wide spaces, 2 newlines inside brackets, 3 inline comments, 4 a space between all tokens,
+	// 5 object items on their own lines / trailing commas in tuples, calls and for-less objects,
+	// 6 line comments (# and //) wherever a newline is insignificant, 7 alternative number spellings
+	Mode int
 	Rng  *rand.Rand // optional: random choices (redundant parentheses etc.)
 }
 
@@ -66,6 +69,7 @@ func prec(n *Node) int {
 
 type renderer struct {
 	sb strings.Builder
+	lc int
 	l  Layout
 	// bracket depth in which newlines are insignificant
 	nl int
@@ -85,6 +89,17 @@ func (r *renderer) sp() {
 		r.sb.WriteString(" /* c */ ")
 	case 4:
 		// t() separates tokens
+	case 6:
+		if r.nl > 0 {
+			r.lc++
+			if r.lc%2 == 0 {
+				r.sb.WriteString(" # c\n ")
+			} else {
+				r.sb.WriteString(" // c\n ")
+			}
+		} else {
+			r.sb.WriteString(" ")
+		}
 	default:
 		r.sb.WriteString(" ")
 	}
@@ -127,6 +142,19 @@ func numText(n2 int) string {
 		return fmt.Sprintf("-%d.5", (-n2)/2)
 	}
 	return fmt.Sprintf("%d.5", n2/2)
+}
+
+// altNumText spells the same half-integer differently (exponent forms, redundant zeros)
+func altNumText(n2 int) string {
+	switch {
+	case n2 == 0:
+		return "0.0"
+	case n2%2 == 0 && n2 > 0:
+		return fmt.Sprintf("%d.0e0", n2/2)
+	case n2 > 0:
+		return fmt.Sprintf("%de-1", n2*5) // k.5 = (10k+5)e-1
+	}
+	return numText(n2)
 }
 
 func (r *renderer) wrapped(n *Node, need bool) {
@@ -275,7 +303,11 @@ func (r *renderer) eachPath(n *Node) {
 func (r *renderer) expr(n *Node) {
 	switch n.K {
 	case "num":
-		r.t(numText(n.N))
+		if r.l.Mode == 7 {
+			r.t(altNumText(n.N))
+		} else {
+			r.t(numText(n.N))
+		}
 	case "bool":
 		if n.N == 1 {
 			r.t("true")
@@ -322,6 +354,9 @@ func (r *renderer) expr(n *Node) {
 			}
 			r.expr(s)
 		}
+		if r.l.Mode == 5 && len(n.Sub) > 0 {
+			r.t(",")
+		}
 		r.osp()
 		r.close("]")
 	case "object":
@@ -331,7 +366,13 @@ func (r *renderer) expr(n *Node) {
 		save := r.nl
 		r.nl = 0
 		for i := 0; i+1 < len(n.Sub); i += 2 {
-			if i > 0 {
+			if r.l.Mode == 5 {
+				// items separated by newlines (with an optional comma before the newline)
+				if i > 0 && i%4 == 0 {
+					r.t(",")
+				}
+				r.w("\n")
+			} else if i > 0 {
 				r.t(",")
 			}
 			r.sp()
@@ -341,7 +382,11 @@ func (r *renderer) expr(n *Node) {
 			r.sp()
 			r.expr(n.Sub[i+1])
 		}
-		r.sp()
+		if r.l.Mode == 5 && len(n.Sub) > 0 {
+			r.w("\n")
+		} else {
+			r.sp()
+		}
 		r.nl = save
 		r.t("}")
 	case "index":
@@ -430,6 +475,8 @@ func (r *renderer) expr(n *Node) {
 		}
 		if n.N == 1 {
 			r.t("...")
+		} else if r.l.Mode == 5 && len(n.Sub) > 0 {
+			r.t(",")
 		}
 		r.osp()
 		r.close(")")
@@ -471,7 +518,7 @@ func (r *renderer) expr(n *Node) {
 // Render produces native-syntax source text for the expression.
 func Render(n *Node, l Layout) string {
 	r := &renderer{l: l}
-	if l.Mode == 2 {
+	if l.Mode == 2 || l.Mode == 6 {
 		// a stand-alone expression ignores newlines everywhere; as an
 		// attribute value it needs brackets, so wrap in parentheses
 		r.open("(")
